@@ -19,6 +19,8 @@ def run(chk):
     chk.rule("MONO", "within one function every assignment to flags[..] stores the same literal")
     chk.rule("END.pinned", "SimplifyPath: end-point distances of an open path are pinned to MAX_DBL and every later write distSqr[V] is "
              "guarded on the same V (guard interpreted for V = 0 and V = high)")
+    chk.rule("TRIM.last-kept", "TrimCollinear's main loop tests IsCollinear(last kept vertex, candidate, next input vertex); the kept iterator "
+             "is re-pointed to the candidate whenever one is kept")
     chk.rule("ERASE", "StripDuplicates calls only erase / pop_back on its path")
     for cfg in cfgs:
         db = AstDB(cfg)
@@ -26,6 +28,7 @@ def run(chk):
         e11.rule_monotone_flags(db, chk, cfg)
         e11.rule_erase_only(db, chk, cfg)
         e11.rule_pinned_ends(db, chk, cfg)
+        e11.rule_trim_last_kept(db, chk, cfg)
     n = len(cfgs)
     chk.floor("MEMBER", 12 * n)
     chk.floor("MONO", 3 * n)
